@@ -408,41 +408,50 @@ Proof.
   induction p as [|c p IH]; intros s; cbn [strip_prefix app]; [reflexivity|]. now rewrite N.eqb_refl.
 Qed.
 
-(* the header does not start anywhere inside the prefix [p] (it starts right after it) *)
-Definition header_not_before (p rest : str) : Prop :=
-  forall a b, p = a ++ b -> b <> [] -> strip_prefix header (b ++ rest) = None.
+(* the current line after reading [a], starting from [line] *)
+Definition cur_line (line a : str) : str := fold_left line_step a line.
 
-Lemma split_once_hit : forall (h s r : str), strip_prefix h s = Some r -> split_once h s = Some ([], r).
-Proof. intros h s r H. destruct s; cbn [split_once]; now rewrite H. Qed.
-Lemma split_once_miss : forall (h : str) c s, strip_prefix h (c :: s) = None ->
-  split_once h (c :: s) = match split_once h s with Some (a, b) => Some (c :: a, b) | None => None end.
-Proof. intros h c s H. cbn [split_once]. now rewrite H. Qed.
+(** no occurrence of the header string inside the prefix [p] starts its line (the prefix may well
+    mention the header: in a comment, in a string) *)
+Definition no_header_line_in (line p rest : str) : Prop :=
+  forall a b, p = a ++ b -> b <> [] ->
+    (exists r, strip_prefix header (b ++ rest) = Some r) -> line_start_ok (cur_line line a) = false.
 
-Lemma split_once_first : forall p body,
-  header_not_before p (header ++ body) -> split_once header (p ++ header ++ body) = Some (p, body).
+Lemma scan_hit : forall line s rest,
+  strip_prefix header s = Some rest -> line_start_ok line = true -> scan line s = Some ([], rest).
 Proof.
-  induction p as [|c p IH]; intros body H.
-  - cbn [app]. apply split_once_hit. apply strip_prefix_app.
-  - assert (Hs : strip_prefix header (c :: (p ++ header ++ body)) = None).
-    { apply (H [] (c :: p)); [reflexivity | discriminate]. }
-    assert (Hrec : split_once header (p ++ header ++ body) = Some (p, body)).
-    { apply IH. intros a b Hab Hb. apply (H (c :: a) b); [now rewrite Hab | assumption]. }
-    change ((c :: p) ++ header ++ body) with (c :: (p ++ header ++ body)).
-    rewrite (split_once_miss _ _ _ Hs), Hrec. reflexivity.
+  intros line s rest H Hl. destruct s as [|c r]; [discriminate|]. cbn [scan]. now rewrite H, Hl.
+Qed.
+
+Lemma scan_first : forall p line body,
+  no_header_line_in line p (header ++ body) -> line_start_ok (cur_line line p) = true ->
+  scan line (p ++ header ++ body) = Some (p, body).
+Proof.
+  induction p as [|c p IH]; intros line body H Hl.
+  - cbn [app]. apply scan_hit; [apply strip_prefix_app | exact Hl].
+  - assert (Hrec : scan (line_step line c) (p ++ header ++ body) = Some (p, body)).
+    { apply IH; [|exact Hl]. intros a b Hab Hb Hocc.
+      apply (H (c :: a) b); [now rewrite Hab | assumption | assumption]. }
+    change ((c :: p) ++ header ++ body) with (c :: (p ++ header ++ body)). cbn [scan]. rewrite Hrec.
+    destruct (strip_prefix header (c :: p ++ header ++ body)) as [rest|] eqn:Hs; [|reflexivity].
+    assert (Hno : line_start_ok line = false).
+    { apply (H [] (c :: p)); [reflexivity | discriminate | eauto]. }
+    now rewrite Hno.
 Qed.
 
 Theorem section_text_prefix : forall p body,
-  header_not_before p (header ++ body) ->
+  no_header_line_in [] p (header ++ body) -> line_start_ok (cur_line [] p) = true ->
   section_text (p ++ header ++ body) = Some (only_line_feeds p ++ body).
-Proof. intros p body H. unfold section_text. now rewrite (split_once_first p body H). Qed.
+Proof. intros p body H Hl. unfold section_text. now rewrite (scan_first p [] body H Hl). Qed.
 
-(** two prefixes with the same number of line feeds give the same text to the deserializer:
-    carriage returns, a byte-order mark, comments, other tables ... before the header are irrelevant *)
+(** two prefixes with the same line feeds give the same text to the deserializer: carriage returns,
+    a byte-order mark, comments (even mentioning the header), other tables ... are irrelevant *)
 Corollary section_text_prefix_irrelevant : forall p p' body,
-  header_not_before p (header ++ body) -> header_not_before p' (header ++ body) ->
+  no_header_line_in [] p (header ++ body) -> line_start_ok (cur_line [] p) = true ->
+  no_header_line_in [] p' (header ++ body) -> line_start_ok (cur_line [] p') = true ->
   only_line_feeds p = only_line_feeds p' ->
   section_text (p ++ header ++ body) = section_text (p' ++ header ++ body).
-Proof. intros p p' body H H' He. now rewrite !section_text_prefix, He. Qed.
+Proof. intros p p' body H Hl H' Hl' He. now rewrite !section_text_prefix, He. Qed.
 
 Lemma only_line_feeds_crlf : forall s, only_line_feeds (flat_map (fun c => if c =? line_feed then [13; line_feed] else [c]) s) = only_line_feeds s.
 Proof.
@@ -451,3 +460,11 @@ Proof.
   - apply N.eqb_eq in He. subst c. reflexivity.
   - now rewrite He.
 Qed.
+
+(** the code before f0237de cut the manifest at a mention of the header in a comment:
+    "# see [package.metadata.leptos-i18n] below\n[package.metadata.leptos-i18n]\nx" *)
+Definition w_mention : str := [35; 32; 115; 101; 101; 32] ++ header ++ [32; 98; 101; 108; 111; 119; 10] ++ header ++ [10; 120].
+Lemma mention_old_refuted :
+  section_text w_mention = Some [10; 10; 120]
+  /\ section_text_old w_mention = Some ([32; 98; 101; 108; 111; 119; 10] ++ header ++ [10; 120]).
+Proof. vm_compute. split; reflexivity. Qed.
